@@ -367,6 +367,10 @@ class Prov:
                     return ("overflowflag", t)
                 if t[0] == "variant":
                     base, var = t[1], t[2]
+                    if base[0] == "agg" and base[2] == var:
+                        for fname, ft in base[3]:
+                            if fname == name:
+                                return ft
                     if base[0] == "trybranch":
                         if var == "Continue":
                             return ("q", base[1])
@@ -417,12 +421,12 @@ def _proj_key(proj):
 
 
 def _contains_rec(t):
-    if not isinstance(t, tuple):
+    if not isinstance(t, tuple) or not t:
         return False
-    if t and (t[0] == "rec" or (t[0] == "unknown" and len(t) > 1 and t[1] == "deep")):
+    if (t[0] == "rec" or (t[0] == "unknown" and len(t) > 1 and t[1] == "deep")):
         # depth-truncated terms depend on the depth at which the site was first asked for: never memoise them
         return True
-    for x in t[1:]:
+    for x in (t[1:] if isinstance(t[0], str) else t):
         if isinstance(x, tuple):
             if _contains_rec(x):
                 return True
